@@ -637,6 +637,11 @@ impl G1Projective {
         } else {
             scalars.len()
         };
+        // blst's Pippenger indexes the first point unconditionally: an empty
+        // sum is the identity.
+        if n == 0 {
+            return Self::identity();
+        }
         let points =
             unsafe { std::slice::from_raw_parts(points.as_ptr() as *const blst_p1, points.len()) };
 
